@@ -1,8 +1,16 @@
 //! C01: every shipped in-memory graph/dataset behaves like a mathematical set (vectors: list) of
 //! quads, checked against the Coq model (coq/C01/Model.v) and against a naive oracle, over mixed
 //! histories using every shipped matcher implementation.
-use sophia_api::dataset::DTerm;
-use sophia_api::graph::GTerm;
+//!
+//! Entry points exercised besides the trait methods called on the store itself: the inherent `new()` and `Default`,
+//! `from_quad_source` / `from_triple_source` / `collect_quads` / `collect_triples` of every store type (also from failing
+//! sources and into a full term index), `Clone` (the hand-written one of `SimpleTermIndex`), the forwarding impls of
+//! `Dataset`/`Graph` for `&T` and `&mut T` and of `MutableDataset`/`MutableGraph` for `&mut T`, the `[Q]` / `[T]` slice
+//! impls, `insert_quad`/`remove_quad`/`insert_triple`/`remove_triple` with every shipped quad/triple shape, bulk operations
+//! on failing sources, `usize` as index type, and `SimpleTermIndex` used directly through `TermIndex`/`GraphNameIndex`
+//! (every twentieth case, checked by `ti_case_ok`).
+use sophia_api::dataset::{CollectibleDataset, DTerm};
+use sophia_api::graph::{CollectibleGraph, GTerm};
 use sophia_api::prelude::*;
 use sophia_api::quad::{Gspo, Spog};
 use sophia_api::source::IntoSource;
@@ -10,7 +18,8 @@ use sophia_api::term::matcher::{
     DatatypeMatcher, GraphNameMatcher, LanguageTagMatcher, Not, TermMatcher, TermMatcherGn,
 };
 use sophia_api::term::{GraphName, LanguageTag, SimpleTerm};
-use sophia_inmem::index::SimpleTermIndex;
+use sophia_api::source::StreamError;
+use sophia_inmem::index::{GraphNameIndex, Index, SimpleTermIndex, TermIndex};
 use std::collections::{BTreeSet, HashSet};
 use verif_harness::*;
 
@@ -384,7 +393,19 @@ enum EK { Subjects, Predicates, Objects, GraphNames, Blank, Iris, Literals, Vari
 enum Op {
     Insert(Q4), Remove(Q4), Contains(Q4), Query(QM), All, RemoveMatching(QM), RetainMatching(QM),
     InsertAll(Vec<Q4>), RemoveAll(Vec<Q4>), Enum(EK),
+    // the extended alphabet (Model.v section 13)
+    /// d.clone(); the history goes on with the clone (`keep_clone`) or with the original; the other copy gets
+    /// `poke` inserted, is emptied, and dropped
+    Clone { keep_clone: bool, poke: Q4 },
+    /// D::from_quad_source / from_triple_source / collect_quads / collect_triples of `l` (followed by a source error
+    /// if `fail`); an Ok result REPLACES the store
+    Collect { l: Vec<Q4>, fail: bool },
+    /// insert_all / remove_all of a source that yields the list, then fails
+    InsertAllFail(Vec<Q4>), RemoveAllFail(Vec<Q4>),
+    /// SimpleTermIndex::len() / is_empty() of the store's term index (sophia_inmem stores)
+    TermCount,
 }
+impl Op { fn is_base(&self) -> bool { !matches!(self, Op::Clone { .. } | Op::Collect { .. } | Op::InsertAllFail(_) | Op::RemoveAllFail(_) | Op::TermCount) } }
 #[derive(Clone, Debug, PartialEq)]
 enum Out { Flag(bool), Count(u64), Err, Unit, Quads(Vec<Q4>), Terms(Vec<Tid>), Unexpected(String) }
 
@@ -394,15 +415,19 @@ fn qm_text(q: &QM, isgraph: bool) -> String {
 }
 fn op_name(o: &Op) -> &'static str {
     match o { Op::Insert(_) => "Insert", Op::Remove(_) => "Remove", Op::Contains(_) => "Contains", Op::Query(_) => "Query", Op::All => "All", Op::RemoveMatching(_) => "RemoveMatching",
-        Op::RetainMatching(_) => "RetainMatching", Op::InsertAll(_) => "InsertAll", Op::RemoveAll(_) => "RemoveAll", Op::Enum(_) => "Enum" }
+        Op::RetainMatching(_) => "RetainMatching", Op::InsertAll(_) => "InsertAll", Op::RemoveAll(_) => "RemoveAll", Op::Enum(_) => "Enum",
+        Op::Clone { .. } => "Clone", Op::Collect { fail: false, .. } => "Collect", Op::Collect { fail: true, .. } => "CollectFail", Op::InsertAllFail(_) => "InsertAllFail",
+        Op::RemoveAllFail(_) => "RemoveAllFail", Op::TermCount => "TermCount" }
 }
 fn op_text(o: &Op, isgraph: bool) -> String {
     match o {
         Op::Insert(q) | Op::Remove(q) | Op::Contains(q) => format!("{}{q:?}", op_name(o)),
         Op::Query(m) | Op::RemoveMatching(m) | Op::RetainMatching(m) => format!("{}({})", op_name(o), qm_text(m, isgraph)),
         Op::All => "All".into(),
-        Op::InsertAll(l) | Op::RemoveAll(l) => format!("{}{l:?}", op_name(o)),
+        Op::InsertAll(l) | Op::RemoveAll(l) | Op::InsertAllFail(l) | Op::RemoveAllFail(l) | Op::Collect { l, .. } => format!("{}{l:?}", op_name(o)),
         Op::Enum(k) => format!("Enum({k:?})"),
+        Op::Clone { keep_clone, poke } => format!("Clone(keep {}, poke {poke:?})", if *keep_clone { "the clone" } else { "the original" }),
+        Op::TermCount => "TermCount".into(),
     }
 }
 fn sorted<T: Ord>(mut v: Vec<T>) -> Vec<T> { v.sort(); v }
@@ -425,32 +450,185 @@ macro_rules! collect_terms { ($c:expr, $it:expr) => {{
     match err { Some(e) => Out::Unexpected(e), None => Out::Terms(sorted_dedup(v)) }
 }}; }
 
-fn run_ds<D>(c: &Ctx, ops: &[Op], r: &mut Rng) -> Vec<Out>
-where D: MutableDataset + Default, D::Error: std::fmt::Debug, D::MutationError: std::fmt::Debug + From<D::Error>, for<'x> DTerm<'x, D>: Clone,
+// ---------- what is specific to a store type ----------
+trait ProbeD: MutableDataset + CollectibleDataset + Clone + Default {
+    /// an empty store: the inherent `new()` where the type has one (and `alt` is drawn), `default()` otherwise
+    fn fresh(_alt: bool) -> Self { Self::default() }
+    /// (len, is_empty) of the term index
+    fn term_count(&self) -> Option<(usize, bool)> { None }
+    /// the same query / enumeration through the `[Q]` slice implementation (vector stores)
+    fn slice_query(&self, _c: &Ctx, _m: &QM) -> Option<Out> { None }
+    fn slice_all(&self, _c: &Ctx) -> Option<Out> { None }
+}
+trait ProbeG: MutableGraph + CollectibleGraph + Clone + Default {
+    fn fresh(_alt: bool) -> Self { Self::default() }
+    fn term_count(&self) -> Option<(usize, bool)> { None }
+    fn slice_query(&self, _c: &Ctx, _m: &QM) -> Option<Out> { None }
+    fn slice_all(&self, _c: &Ctx) -> Option<Out> { None }
+}
+macro_rules! inmem_probe { ($tr:ident, $($ty:ident)::+) => {
+    impl<I: Index + Default> $tr for $($ty)::+<SimpleTermIndex<I>> {
+        fn fresh(alt: bool) -> Self { if alt { Self::new() } else { Self::default() } }
+        fn term_count(&self) -> Option<(usize, bool)> { let t = self.verif_term_index(); Some((t.len(), t.is_empty())) }
+    }
+}; }
+inmem_probe!(ProbeD, sophia_inmem::dataset::GenericFastDataset);
+inmem_probe!(ProbeD, sophia_inmem::dataset::GenericLightDataset);
+inmem_probe!(ProbeG, sophia_inmem::graph::GenericFastGraph);
+inmem_probe!(ProbeG, sophia_inmem::graph::GenericLightGraph);
+impl ProbeD for HashSet<Spog<ST>> {}
+impl ProbeD for BTreeSet<Spog<ST>> {}
+impl ProbeD for HashSet<Gspo<ST>> {}
+impl ProbeD for BTreeSet<Gspo<ST>> {}
+impl ProbeG for HashSet<[ST; 3]> {}
+impl ProbeG for BTreeSet<[ST; 3]> {}
+macro_rules! vec_probe_d { ($q:ty) => {
+    impl ProbeD for Vec<$q> {
+        fn slice_query(&self, c: &Ctx, m: &QM) -> Option<Out> {
+            let sl: &[$q] = &self[..];
+            Some(collect_quads!(c, sl.quads_matching(m.s.m.matcher_ref(), m.p.m.matcher_ref(), m.o.m.matcher_ref(), m.g.m.matcher_ref())))
+        }
+        fn slice_all(&self, c: &Ctx) -> Option<Out> { let sl: &[$q] = &self[..]; Some(collect_quads!(c, sl.quads())) }
+    }
+}; }
+vec_probe_d!(Spog<ST>);
+vec_probe_d!(Gspo<ST>);
+impl ProbeG for Vec<[ST; 3]> {
+    fn slice_query(&self, c: &Ctx, m: &QM) -> Option<Out> {
+        let sl: &[[ST; 3]] = &self[..];
+        Some(collect_triples!(c, sl.triples_matching(m.s.m.matcher_ref(), m.p.m.matcher_ref(), m.o.m.matcher_ref())))
+    }
+    fn slice_all(&self, c: &Ctx) -> Option<Out> { let sl: &[[ST; 3]] = &self[..]; Some(collect_triples!(c, sl.triples())) }
+}
+
+/// a source that yields the items, then fails
+fn failing<T>(v: Vec<T>) -> impl Iterator<Item = Result<T, MyErr>> { v.into_iter().map(Ok).chain(std::iter::once(Err(MyErr(7)))) }
+/// Ok / Err(true) = source error / Err(false) = sink error
+fn stream_res<T, E1: std::error::Error, E2: std::error::Error>(x: Result<T, StreamError<E1, E2>>) -> Result<T, bool> {
+    match x { Ok(t) => Ok(t), Err(StreamError::SourceError(_)) => Err(true), Err(StreamError::SinkError(_)) => Err(false) }
+}
+fn bulk_fail_out<E1: std::error::Error, E2: std::error::Error>(x: Result<usize, StreamError<E1, E2>>) -> Out {
+    match stream_res(x) { Ok(n) => Out::Unexpected(format!("Ok({n}) from a failing source")), Err(true) => Out::Flag(false), Err(false) => Out::Err }
+}
+fn spogs(c: &Ctx, l: &[Q4], r: &mut Rng) -> Vec<Spog<ST>> { l.iter().map(|q| { let (s, p, o, g) = c.quad(q, r); ([s, p, o], g) }).collect() }
+fn gspos(c: &Ctx, l: &[Q4], r: &mut Rng) -> Vec<Gspo<ST>> { l.iter().map(|q| { let (s, p, o, g) = c.quad(q, r); (g, [s, p, o]) }).collect() }
+fn spos(c: &Ctx, l: &[Q4], r: &mut Rng) -> Vec<[ST; 3]> { l.iter().map(|q| { let (s, p, o, _) = c.quad(q, r); [s, p, o] }).collect() }
+
+/// the read-only operations, on any `Dataset` (the store itself, `&store`, `&mut store`)
+fn ds_read<'a, R>(c: &Ctx, d: &'a R, op: &Op, r: &mut Rng) -> Out
+where R: Dataset, R::Error: std::fmt::Debug, DTerm<'a, R>: Clone,
 {
-    let mut d = D::default();
+    match op {
+        Op::Contains(q) => {
+            let (s, p, o, g) = c.quad(q, r);
+            let res = if r.chance(1, 2) { d.contains(&s, &p, &o, g.as_ref()) } else { d.contains(s, p, o, g) };
+            match res { Ok(b) => Out::Flag(b), Err(e) => Out::Unexpected(format!("{e:?}")) }
+        }
+        Op::Query(m) => collect_quads!(c, d.quads_matching(m.s.m.matcher_ref(), m.p.m.matcher_ref(), m.o.m.matcher_ref(), m.g.m.matcher_ref())),
+        Op::All => collect_quads!(c, d.quads()),
+        Op::Enum(k) => match k {
+            EK::Subjects => collect_terms!(c, d.subjects()), EK::Predicates => collect_terms!(c, d.predicates()), EK::Objects => collect_terms!(c, d.objects()),
+            EK::GraphNames => collect_terms!(c, d.graph_names()), EK::Blank => collect_terms!(c, d.blank_nodes()), EK::Iris => collect_terms!(c, d.iris()),
+            EK::Literals => collect_terms!(c, d.literals()), EK::Variables => collect_terms!(c, d.variables()), EK::Quoted => collect_terms!(c, d.quoted_triples()),
+        },
+        _ => unreachable!("not a read-only operation"),
+    }
+}
+/// the mutations, on any `MutableDataset` (the store itself, `&mut store`)
+fn ds_mut<M>(c: &Ctx, d: &mut M, op: &Op, r: &mut Rng) -> Out
+where M: MutableDataset, M::Error: std::fmt::Debug, M::MutationError: std::fmt::Debug + From<M::Error>,
+{
+    match op {
+        Op::Insert(q) => {
+            let (s, p, o, g) = c.quad(q, r);
+            let res = match r.below(6) {
+                0 => d.insert_quad(([s, p, o], g)),
+                1 => d.insert_quad((g, [s, p, o])),
+                2 if g.is_some() => d.insert_quad([s, p, o, g.unwrap()]),
+                3 => d.insert(&s, &p, &o, g.as_ref()),
+                _ => d.insert(s, p, o, g),
+            };
+            match res { Ok(b) => Out::Flag(b), Err(_) => Out::Err }
+        }
+        Op::Remove(q) => {
+            let (s, p, o, g) = c.quad(q, r);
+            let res = match r.below(6) {
+                0 => d.remove_quad(([s, p, o], g)),
+                1 => d.remove_quad((g, [s, p, o])),
+                2 if g.is_some() => d.remove_quad([s, p, o, g.unwrap()]),
+                3 => d.remove(&s, &p, &o, g.as_ref()),
+                _ => d.remove(s, p, o, g),
+            };
+            match res { Ok(b) => Out::Flag(b), Err(e) => Out::Unexpected(format!("{e:?}")) }
+        }
+        Op::RemoveMatching(m) => match d.remove_matching(m.s.m.matcher_ref(), m.p.m.matcher_ref(), m.o.m.matcher_ref(), m.g.m.matcher_ref()) { Ok(n) => Out::Count(n as u64), Err(e) => Out::Unexpected(format!("{e:?}")) },
+        Op::RetainMatching(m) => match d.retain_matching(m.s.m.matcher_ref(), m.p.m.matcher_ref(), m.o.m.matcher_ref(), m.g.m.matcher_ref()) { Ok(()) => Out::Unit, Err(e) => Out::Unexpected(format!("{e:?}")) },
+        Op::InsertAll(l) => {
+            let res = match r.below(3) {
+                0 => stream_res(d.insert_all(gspos(c, l, r).into_iter().into_source())),
+                1 if l.iter().all(|q| q.3.is_some()) => stream_res(d.insert_all(spogs(c, l, r).into_iter().map(|([s, p, o], g)| [s, p, o, g.unwrap()]).into_source())),
+                _ => stream_res(d.insert_all(spogs(c, l, r).into_iter().into_source())),
+            };
+            match res { Ok(n) => Out::Count(n as u64), Err(_) => Out::Err }
+        }
+        Op::RemoveAll(l) => {
+            let res = match r.below(3) {
+                0 => stream_res(d.remove_all(gspos(c, l, r).into_iter().into_source())),
+                1 => stream_res(d.remove_all(spogs(c, l, r).into_iter().into_source().filter_quads(|_| true))),
+                _ => stream_res(d.remove_all(spogs(c, l, r).into_iter().into_source())),
+            };
+            match res { Ok(n) => Out::Count(n as u64), Err(e) => Out::Unexpected(format!("remove_all failed (source error: {e})")) }
+        }
+        Op::InsertAllFail(l) => if r.chance(1, 2) { bulk_fail_out(d.insert_all(failing(spogs(c, l, r)))) } else { bulk_fail_out(d.insert_all(failing(gspos(c, l, r)))) },
+        Op::RemoveAllFail(l) => bulk_fail_out(d.remove_all(failing(spogs(c, l, r)))),
+        _ => unreachable!("not a mutation"),
+    }
+}
+
+fn run_ds<D>(c: &Ctx, ops: &[Op], r: &mut Rng) -> Vec<Out>
+where D: ProbeD, D::Error: std::fmt::Debug + std::error::Error, D::MutationError: std::fmt::Debug + From<D::Error>, for<'x> DTerm<'x, D>: Clone,
+{
+    let mut d = D::fresh(r.chance(1, 2));
     let mut outs = vec![];
     for op in ops {
+        // how the store is reached: 0 directly, 1 through `&D` (read) / the slice (vectors), 2 through `&mut D`
+        let via = r.below(3);
         let o = match op {
-            Op::Insert(q) => { let (s, p, o, g) = c.quad(q, r); match d.insert(s, p, o, g) { Ok(b) => Out::Flag(b), Err(_) => Out::Err } }
-            Op::Remove(q) => { let (s, p, o, g) = c.quad(q, r); match d.remove(s, p, o, g) { Ok(b) => Out::Flag(b), Err(e) => Out::Unexpected(format!("{e:?}")) } }
-            Op::Contains(q) => { let (s, p, o, g) = c.quad(q, r); match d.contains(s, p, o, g) { Ok(b) => Out::Flag(b), Err(e) => Out::Unexpected(format!("{e:?}")) } }
-            Op::Query(m) => collect_quads!(c, d.quads_matching(m.s.m.matcher_ref(), m.p.m.matcher_ref(), m.o.m.matcher_ref(), m.g.m.matcher_ref())),
-            Op::All => collect_quads!(c, d.quads()),
-            Op::RemoveMatching(m) => match d.remove_matching(m.s.m.matcher_ref(), m.p.m.matcher_ref(), m.o.m.matcher_ref(), m.g.m.matcher_ref()) { Ok(n) => Out::Count(n as u64), Err(e) => Out::Unexpected(format!("{e:?}")) },
-            Op::RetainMatching(m) => match d.retain_matching(m.s.m.matcher_ref(), m.p.m.matcher_ref(), m.o.m.matcher_ref(), m.g.m.matcher_ref()) { Ok(()) => Out::Unit, Err(e) => Out::Unexpected(format!("{e:?}")) },
-            Op::InsertAll(l) => {
-                let v: Vec<Spog<ST>> = l.iter().map(|q| { let (s, p, o, g) = c.quad(q, r); ([s, p, o], g) }).collect();
-                match d.insert_all(v.into_iter().into_source()) { Ok(n) => Out::Count(n as u64), Err(_) => Out::Err }
+            Op::Contains(_) | Op::Query(_) | Op::All | Op::Enum(_) => {
+                let sl = if via == 1 && r.chance(1, 2) { match op { Op::Query(m) => d.slice_query(c, m), Op::All => d.slice_all(c), _ => None } } else { None };
+                match sl {
+                    Some(o) => o,
+                    None => match via { 0 => ds_read(c, &d, op, r), 1 => ds_read(c, &&d, op, r), _ => { let m = &mut d; ds_read(c, &m, op, r) } },
+                }
             }
-            Op::RemoveAll(l) => {
-                let v: Vec<Spog<ST>> = l.iter().map(|q| { let (s, p, o, g) = c.quad(q, r); ([s, p, o], g) }).collect();
-                match d.remove_all(v.into_iter().into_source()) { Ok(n) => Out::Count(n as u64), Err(e) => Out::Unexpected(format!("{e:?}")) }
+            Op::Insert(_) | Op::Remove(_) | Op::RemoveMatching(_) | Op::RetainMatching(_) | Op::InsertAll(_) | Op::RemoveAll(_) | Op::InsertAllFail(_) | Op::RemoveAllFail(_) =>
+                if via == 2 { let mut m = &mut d; ds_mut(c, &mut m, op, r) } else { ds_mut(c, &mut d, op, r) },
+            Op::Clone { keep_clone, poke } => {
+                let mut other = d.clone();
+                let same = ds_read(c, &other, &Op::All, r) == ds_read(c, &d, &Op::All, r);
+                if *keep_clone { std::mem::swap(&mut d, &mut other) }
+                let (s, p, o, g) = c.quad(poke, r);
+                let _ = other.insert(s, p, o, g);
+                let _ = other.remove_matching(Any, Any, Any, Any);
+                drop(other);
+                if same { Out::Unit } else { Out::Unexpected("the clone does not hold the quads of the original".into()) }
             }
-            Op::Enum(k) => match k {
-                EK::Subjects => collect_terms!(c, d.subjects()), EK::Predicates => collect_terms!(c, d.predicates()), EK::Objects => collect_terms!(c, d.objects()),
-                EK::GraphNames => collect_terms!(c, d.graph_names()), EK::Blank => collect_terms!(c, d.blank_nodes()), EK::Iris => collect_terms!(c, d.iris()),
-                EK::Literals => collect_terms!(c, d.literals()), EK::Variables => collect_terms!(c, d.variables()), EK::Quoted => collect_terms!(c, d.quoted_triples()),
+            Op::Collect { l, fail } => {
+                let res: Result<D, bool> = if *fail {
+                    if r.chance(1, 2) { stream_res(D::from_quad_source(failing(spogs(c, l, r)))) } else { stream_res(failing(gspos(c, l, r)).collect_quads::<D>()) }
+                } else {
+                    match r.below(4) {
+                        0 => stream_res(spogs(c, l, r).into_iter().into_source().collect_quads::<D>()),
+                        1 => stream_res(D::from_quad_source(gspos(c, l, r).into_iter().into_source())),
+                        2 => stream_res(D::from_quad_source(spogs(c, l, r).into_iter().into_source().filter_quads(|_| true))),
+                        _ => stream_res(D::from_quad_source(spogs(c, l, r).into_iter().into_source())),
+                    }
+                };
+                match res { Ok(nd) => if *fail { Out::Unexpected("Ok from a failing source".into()) } else { d = nd; Out::Flag(true) }, Err(true) => Out::Flag(false), Err(false) => Out::Err }
+            }
+            Op::TermCount => match d.term_count() {
+                Some((n, e)) => if e == (n == 0) { Out::Count(n as u64) } else { Out::Unexpected(format!("len() = {n} but is_empty() = {e}")) },
+                None => Out::Unit,
             },
         };
         outs.push(o);
@@ -458,32 +636,94 @@ where D: MutableDataset + Default, D::Error: std::fmt::Debug, D::MutationError: 
     outs
 }
 
-fn run_gr<G>(c: &Ctx, ops: &[Op], r: &mut Rng) -> Vec<Out>
-where G: MutableGraph + Default, G::Error: std::fmt::Debug, G::MutationError: std::fmt::Debug + From<G::Error>, for<'x> GTerm<'x, G>: Clone,
+fn gr_read<'a, R>(c: &Ctx, d: &'a R, op: &Op, r: &mut Rng) -> Out
+where R: Graph, R::Error: std::fmt::Debug, GTerm<'a, R>: Clone,
 {
-    let mut d = G::default();
+    match op {
+        Op::Contains(q) => {
+            let (s, p, o, _) = c.quad(q, r);
+            let res = if r.chance(1, 2) { d.contains(&s, &p, &o) } else { d.contains(s, p, o) };
+            match res { Ok(b) => Out::Flag(b), Err(e) => Out::Unexpected(format!("{e:?}")) }
+        }
+        Op::Query(m) => collect_triples!(c, d.triples_matching(m.s.m.matcher_ref(), m.p.m.matcher_ref(), m.o.m.matcher_ref())),
+        Op::All => collect_triples!(c, d.triples()),
+        Op::Enum(k) => match k {
+            EK::Subjects => collect_terms!(c, d.subjects()), EK::Predicates => collect_terms!(c, d.predicates()), EK::Objects => collect_terms!(c, d.objects()),
+            EK::GraphNames => Out::Unexpected("graph_names on a graph".into()), EK::Blank => collect_terms!(c, d.blank_nodes()), EK::Iris => collect_terms!(c, d.iris()),
+            EK::Literals => collect_terms!(c, d.literals()), EK::Variables => collect_terms!(c, d.variables()), EK::Quoted => collect_terms!(c, d.quoted_triples()),
+        },
+        _ => unreachable!("not a read-only operation"),
+    }
+}
+fn gr_mut<M>(c: &Ctx, d: &mut M, op: &Op, r: &mut Rng) -> Out
+where M: MutableGraph, M::Error: std::fmt::Debug, M::MutationError: std::fmt::Debug + From<M::Error>,
+{
+    match op {
+        Op::Insert(q) => {
+            let (s, p, o, _) = c.quad(q, r);
+            let res = match r.below(4) { 0 => d.insert_triple([s, p, o]), 1 => d.insert(&s, &p, &o), 2 => d.insert_triple([&s, &p, &o]), _ => d.insert(s, p, o) };
+            match res { Ok(b) => Out::Flag(b), Err(_) => Out::Err }
+        }
+        Op::Remove(q) => {
+            let (s, p, o, _) = c.quad(q, r);
+            let res = match r.below(4) { 0 => d.remove_triple([s, p, o]), 1 => d.remove(&s, &p, &o), 2 => d.remove_triple([&s, &p, &o]), _ => d.remove(s, p, o) };
+            match res { Ok(b) => Out::Flag(b), Err(e) => Out::Unexpected(format!("{e:?}")) }
+        }
+        Op::RemoveMatching(m) => match d.remove_matching(m.s.m.matcher_ref(), m.p.m.matcher_ref(), m.o.m.matcher_ref()) { Ok(n) => Out::Count(n as u64), Err(e) => Out::Unexpected(format!("{e:?}")) },
+        Op::RetainMatching(m) => match d.retain_matching(m.s.m.matcher_ref(), m.p.m.matcher_ref(), m.o.m.matcher_ref()) { Ok(()) => Out::Unit, Err(e) => Out::Unexpected(format!("{e:?}")) },
+        Op::InsertAll(l) => {
+            let res = if r.chance(1, 3) { stream_res(d.insert_all(spos(c, l, r).into_iter().into_source().filter_triples(|_| true))) } else { stream_res(d.insert_all(spos(c, l, r).into_iter().into_source())) };
+            match res { Ok(n) => Out::Count(n as u64), Err(_) => Out::Err }
+        }
+        Op::RemoveAll(l) => match stream_res(d.remove_all(spos(c, l, r).into_iter().into_source())) { Ok(n) => Out::Count(n as u64), Err(e) => Out::Unexpected(format!("remove_all failed (source error: {e})")) },
+        Op::InsertAllFail(l) => bulk_fail_out(d.insert_all(failing(spos(c, l, r)))),
+        Op::RemoveAllFail(l) => bulk_fail_out(d.remove_all(failing(spos(c, l, r)))),
+        _ => unreachable!("not a mutation"),
+    }
+}
+
+fn run_gr<G>(c: &Ctx, ops: &[Op], r: &mut Rng) -> Vec<Out>
+where G: ProbeG, G::Error: std::fmt::Debug + std::error::Error, G::MutationError: std::fmt::Debug + From<G::Error>, for<'x> GTerm<'x, G>: Clone,
+{
+    let mut d = G::fresh(r.chance(1, 2));
     let mut outs = vec![];
     for op in ops {
+        let via = r.below(3);
         let o = match op {
-            Op::Insert(q) => { let (s, p, o, _) = c.quad(q, r); match d.insert(s, p, o) { Ok(b) => Out::Flag(b), Err(_) => Out::Err } }
-            Op::Remove(q) => { let (s, p, o, _) = c.quad(q, r); match d.remove(s, p, o) { Ok(b) => Out::Flag(b), Err(e) => Out::Unexpected(format!("{e:?}")) } }
-            Op::Contains(q) => { let (s, p, o, _) = c.quad(q, r); match d.contains(s, p, o) { Ok(b) => Out::Flag(b), Err(e) => Out::Unexpected(format!("{e:?}")) } }
-            Op::Query(m) => collect_triples!(c, d.triples_matching(m.s.m.matcher_ref(), m.p.m.matcher_ref(), m.o.m.matcher_ref())),
-            Op::All => collect_triples!(c, d.triples()),
-            Op::RemoveMatching(m) => match d.remove_matching(m.s.m.matcher_ref(), m.p.m.matcher_ref(), m.o.m.matcher_ref()) { Ok(n) => Out::Count(n as u64), Err(e) => Out::Unexpected(format!("{e:?}")) },
-            Op::RetainMatching(m) => match d.retain_matching(m.s.m.matcher_ref(), m.p.m.matcher_ref(), m.o.m.matcher_ref()) { Ok(()) => Out::Unit, Err(e) => Out::Unexpected(format!("{e:?}")) },
-            Op::InsertAll(l) => {
-                let v: Vec<[ST; 3]> = l.iter().map(|q| { let (s, p, o, _) = c.quad(q, r); [s, p, o] }).collect();
-                match d.insert_all(v.into_iter().into_source()) { Ok(n) => Out::Count(n as u64), Err(_) => Out::Err }
+            Op::Contains(_) | Op::Query(_) | Op::All | Op::Enum(_) => {
+                let sl = if via == 1 && r.chance(1, 2) { match op { Op::Query(m) => d.slice_query(c, m), Op::All => d.slice_all(c), _ => None } } else { None };
+                match sl {
+                    Some(o) => o,
+                    None => match via { 0 => gr_read(c, &d, op, r), 1 => gr_read(c, &&d, op, r), _ => { let m = &mut d; gr_read(c, &m, op, r) } },
+                }
             }
-            Op::RemoveAll(l) => {
-                let v: Vec<[ST; 3]> = l.iter().map(|q| { let (s, p, o, _) = c.quad(q, r); [s, p, o] }).collect();
-                match d.remove_all(v.into_iter().into_source()) { Ok(n) => Out::Count(n as u64), Err(e) => Out::Unexpected(format!("{e:?}")) }
+            Op::Insert(_) | Op::Remove(_) | Op::RemoveMatching(_) | Op::RetainMatching(_) | Op::InsertAll(_) | Op::RemoveAll(_) | Op::InsertAllFail(_) | Op::RemoveAllFail(_) =>
+                if via == 2 { let mut m = &mut d; gr_mut(c, &mut m, op, r) } else { gr_mut(c, &mut d, op, r) },
+            Op::Clone { keep_clone, poke } => {
+                let mut other = d.clone();
+                let same = gr_read(c, &other, &Op::All, r) == gr_read(c, &d, &Op::All, r);
+                if *keep_clone { std::mem::swap(&mut d, &mut other) }
+                let (s, p, o, _) = c.quad(poke, r);
+                let _ = other.insert(s, p, o);
+                let _ = other.remove_matching(Any, Any, Any);
+                drop(other);
+                if same { Out::Unit } else { Out::Unexpected("the clone does not hold the triples of the original".into()) }
             }
-            Op::Enum(k) => match k {
-                EK::Subjects => collect_terms!(c, d.subjects()), EK::Predicates => collect_terms!(c, d.predicates()), EK::Objects => collect_terms!(c, d.objects()),
-                EK::GraphNames => Out::Unexpected("graph_names on a graph".into()), EK::Blank => collect_terms!(c, d.blank_nodes()), EK::Iris => collect_terms!(c, d.iris()),
-                EK::Literals => collect_terms!(c, d.literals()), EK::Variables => collect_terms!(c, d.variables()), EK::Quoted => collect_terms!(c, d.quoted_triples()),
+            Op::Collect { l, fail } => {
+                let res: Result<G, bool> = if *fail {
+                    if r.chance(1, 2) { stream_res(G::from_triple_source(failing(spos(c, l, r)))) } else { stream_res(failing(spos(c, l, r)).collect_triples::<G>()) }
+                } else {
+                    match r.below(3) {
+                        0 => stream_res(spos(c, l, r).into_iter().into_source().collect_triples::<G>()),
+                        1 => stream_res(G::from_triple_source(spos(c, l, r).into_iter().into_source().filter_triples(|_| true))),
+                        _ => stream_res(G::from_triple_source(spos(c, l, r).into_iter().into_source())),
+                    }
+                };
+                match res { Ok(nd) => if *fail { Out::Unexpected("Ok from a failing source".into()) } else { d = nd; Out::Flag(true) }, Err(true) => Out::Flag(false), Err(false) => Out::Err }
+            }
+            Op::TermCount => match d.term_count() {
+                Some((n, e)) => if e == (n == 0) { Out::Count(n as u64) } else { Out::Unexpected(format!("len() = {n} but is_empty() = {e}")) },
+                None => Out::Unit,
             },
         };
         outs.push(o);
@@ -504,7 +744,7 @@ fn pool_info(id: Tid) -> (u64, Vec<Tid>, Vec<Tid>) {
         _ => unreachable!(),
     }
 }
-struct Oracle { quads: Vec<Q4>, interned: Vec<Tid>, cap: Option<usize>, mode: Mode, isgraph: bool }
+struct Oracle { quads: Vec<Q4>, interned: Vec<Tid>, cap: Option<usize>, mode: Mode, isgraph: bool, counted: bool }
 impl Oracle {
     fn q_ok(&self, m: &QM, q: &Q4) -> bool { md_ok(&m.s.d, q.0) && md_ok(&m.p.d, q.1) && md_ok(&m.o.d, q.2) && (self.isgraph || gd_ok(&m.g.d, q.3)) }
     fn insert(&mut self, q: &Q4) -> Option<bool> {
@@ -547,6 +787,18 @@ impl Oracle {
             }
             Op::InsertAll(l) => { let mut n = 0; for q in l { match self.insert(q) { None => return Out::Err, Some(true) => n += 1, Some(false) => {} } } Out::Count(n) }
             Op::RemoveAll(l) => Out::Count(self.remove_each(l)),
+            // a clone is the same set; what happens to the other copy is invisible
+            Op::Clone { .. } => Out::Unit,
+            // the bulk constructor: the set of the listed quads, built in a NEW store (an empty term index)
+            Op::Collect { l, fail } => {
+                let mut fresh = Oracle { quads: vec![], interned: vec![], cap: self.cap, mode: self.mode, isgraph: self.isgraph, counted: self.counted };
+                for q in l { if fresh.insert(q).is_none() { return Out::Err } }
+                if *fail { Out::Flag(false) } else { *self = fresh; Out::Flag(true) }
+            }
+            // what the source yielded before failing is in (resp. out of) the set
+            Op::InsertAllFail(l) => { for q in l { if self.insert(q).is_none() { return Out::Err } } Out::Flag(false) }
+            Op::RemoveAllFail(l) => { self.remove_each(l); Out::Flag(false) }
+            Op::TermCount => if self.counted { Out::Count(self.interned.len() as u64) } else { Out::Unit },
             Op::Enum(k) => {
                 let spog = |q: &Q4| -> Vec<Tid> { let mut v = vec![q.0, q.1, q.2]; if let Some(g) = q.3 { v.push(g) } v };
                 let atoms = |kind: u64| -> Vec<Tid> { self.quads.iter().flat_map(spog).flat_map(|t| pool_info(t).1).filter(|a| pool_info(*a).0 == kind).collect() };
@@ -561,7 +813,7 @@ impl Oracle {
     }
 }
 fn run_oracle(st: &Store, ops: &[Op]) -> Vec<Out> {
-    let mut o = Oracle { quads: vec![], interned: vec![], cap: st.cap, mode: st.mode, isgraph: st.isgraph };
+    let mut o = Oracle { quads: vec![], interned: vec![], cap: st.cap, mode: st.mode, isgraph: st.isgraph, counted: st.max != 0 };
     ops.iter().map(|op| o.step(op)).collect()
 }
 
@@ -578,6 +830,8 @@ fn stores() -> Vec<Store> {
         v.push(mk(format!("{kind}::{l}"), l, 4294967295, Some(4294967295), Mode::Set, None, false));
         v.push(mk(format!("{kind}::small::{f}"), f, 65535, Some(65535), Mode::Set, None, true));
         v.push(mk(format!("{kind}::small::{l}"), l, 65535, Some(65535), Mode::Set, None, false));
+        v.push(mk(format!("Generic{f}<usize>"), f, u64::MAX, Some(usize::MAX), Mode::Set, None, true));
+        v.push(mk(format!("Generic{l}<usize>"), l, u64::MAX, Some(usize::MAX), Mode::Set, None, false));
         for m in MS { v.push(mk(format!("Generic{f}<SmallIdx<{m}>>"), f, m as u64, Some(m as usize), Mode::Set, Some(m), true)); }
         for m in MS { v.push(mk(format!("Generic{l}<SmallIdx<{m}>>"), l, m as u64, Some(m as usize), Mode::Set, Some(m), false)); }
         if isgraph {
@@ -610,6 +864,10 @@ fn run_real(c: &Ctx, st: &Store, ops: &[Op], r: &mut Rng) -> Vec<Out> {
         "BTreeSet<Gspo>" => run_ds::<BTreeSet<Gspo<ST>>>(c, ops, r),
         "Vec<Spog>" => run_ds::<Vec<Spog<ST>>>(c, ops, r),
         "Vec<Gspo>" => run_ds::<Vec<Gspo<ST>>>(c, ops, r),
+        "GenericFastDataset<usize>" => run_ds::<ds::GenericFastDataset<SimpleTermIndex<usize>>>(c, ops, r),
+        "GenericLightDataset<usize>" => run_ds::<ds::GenericLightDataset<SimpleTermIndex<usize>>>(c, ops, r),
+        "GenericFastGraph<usize>" => run_gr::<gr::GenericFastGraph<SimpleTermIndex<usize>>>(c, ops, r),
+        "GenericLightGraph<usize>" => run_gr::<gr::GenericLightGraph<SimpleTermIndex<usize>>>(c, ops, r),
         "graph::FastGraph" => run_gr::<gr::FastGraph>(c, ops, r),
         "graph::LightGraph" => run_gr::<gr::LightGraph>(c, ops, r),
         "graph::small::FastGraph" => run_gr::<gr::small::FastGraph>(c, ops, r),
@@ -691,9 +949,21 @@ fn gen_qm(c: &Ctx, r: &mut Rng, pal: &Palette, inserted: &[Q4], isgraph: bool) -
     let base = if !inserted.is_empty() && r.chance(3, 5) { *r.pick(inserted) } else { pal.quad(r, isgraph) };
     gen_qm_shape(c, r, pal, base, shape, isgraph)
 }
+/// a bulk construction: mostly fresh quads, some repeated, some already known; one in four from a failing source
+fn gen_collect(r: &mut Rng, pal: &Palette, inserted: &mut Vec<Q4>, isgraph: bool) -> Op {
+    let n = r.below(9);
+    let mut l: Vec<Q4> = vec![];
+    for _ in 0..n {
+        let q = if !l.is_empty() && r.chance(1, 6) { *r.pick(&l) } else if !inserted.is_empty() && r.chance(1, 4) { *r.pick(inserted) } else { pal.quad(r, isgraph) };
+        l.push(q);
+    }
+    let fail = r.chance(1, 4);
+    if !fail { inserted.extend(l.iter().cloned()) }
+    Op::Collect { l, fail }
+}
 fn gen_op(c: &Ctx, r: &mut Rng, pal: &Palette, inserted: &mut Vec<Q4>, isgraph: bool) -> Op {
     let known = |r: &mut Rng, inserted: &[Q4]| if !inserted.is_empty() && r.chance(2, 3) { *r.pick(inserted) } else { pal.quad(r, isgraph) };
-    match r.below(100) {
+    match r.below(112) {
         0..=34 => { let q = if !inserted.is_empty() && r.chance(1, 6) { *r.pick(inserted) } else { pal.quad(r, isgraph) }; inserted.push(q); Op::Insert(q) }
         35..=44 => Op::Remove(known(r, inserted)),
         45..=49 => Op::Contains(known(r, inserted)),
@@ -703,6 +973,11 @@ fn gen_op(c: &Ctx, r: &mut Rng, pal: &Palette, inserted: &mut Vec<Q4>, isgraph: 
         83..=86 => Op::RetainMatching(gen_qm(c, r, pal, inserted, isgraph)),
         87..=91 => { let n = r.below(7); let l: Vec<Q4> = (0..n).map(|_| pal.quad(r, isgraph)).collect(); inserted.extend(l.iter().cloned()); Op::InsertAll(l) }
         92..=94 => { let n = r.below(7); Op::RemoveAll((0..n).map(|_| known(r, inserted)).collect()) }
+        100..=103 => Op::Clone { keep_clone: r.chance(1, 2), poke: pal.quad(r, isgraph) },
+        104..=105 => gen_collect(r, pal, inserted, isgraph),
+        106..=107 => { let n = r.below(5); let l: Vec<Q4> = (0..n).map(|_| pal.quad(r, isgraph)).collect(); inserted.extend(l.iter().cloned()); Op::InsertAllFail(l) }
+        108 => { let n = r.below(5); Op::RemoveAllFail((0..n).map(|_| known(r, inserted)).collect()) }
+        109..=111 => Op::TermCount,
         _ => Op::Enum(*r.pick(if isgraph { &[EK::Subjects, EK::Predicates, EK::Objects, EK::Blank, EK::Iris, EK::Literals, EK::Variables, EK::Quoted][..] }
                               else { &[EK::Subjects, EK::Predicates, EK::Objects, EK::GraphNames, EK::GraphNames, EK::Blank, EK::Iris, EK::Literals, EK::Variables, EK::Quoted][..] })),
     }
@@ -779,6 +1054,17 @@ fn c_op(o: &Op, isgraph: bool) -> String {
         Op::InsertAll(l) => format!("InsertAll {}", c_ql(l)), Op::RemoveAll(l) => format!("RemoveAll {}", c_ql(l)),
         Op::Enum(k) => format!("Enum {}", match k { EK::Subjects => "ESubjects", EK::Predicates => "EPredicates", EK::Objects => "EObjects", EK::GraphNames => "EGraphNames",
             EK::Blank => "(EAtoms 0)", EK::Iris => "(EAtoms 1)", EK::Literals => "(EAtoms 2)", EK::Variables => "(EAtoms 4)", EK::Quoted => "EQuoted" }),
+        _ => unreachable!("not a base operation"),
+    }
+}
+fn c_xop(o: &Op, isgraph: bool) -> String {
+    match o {
+        Op::Clone { .. } => "XClone".into(),
+        Op::Collect { l, fail } => format!("XCollect {} {}", c_ql(l), coq_bool(*fail)),
+        Op::InsertAllFail(l) => format!("XInsertAllFail {}", c_ql(l)),
+        Op::RemoveAllFail(l) => format!("XRemoveAllFail {}", c_ql(l)),
+        Op::TermCount => "XTermCount".into(),
+        _ => format!("XBase ({})", c_op(o, isgraph)),
     }
 }
 fn c_out(o: &Out) -> String {
@@ -786,6 +1072,74 @@ fn c_out(o: &Out) -> String {
         Out::Flag(b) => format!("OFlag {}", coq_bool(*b)), Out::Count(n) => format!("OCount {n}"), Out::Err => "OErr".into(), Out::Unit => "OUnit".into(),
         Out::Quads(l) => format!("OQuads {}", c_ql(l)), Out::Terms(l) => format!("OTerms {}", c_ids(l)),
         Out::Unexpected(_) => "OErr; OErr".into(), // an unexpected error never matches the model: the length differs
+    }
+}
+
+// ---------- SimpleTermIndex used directly through TermIndex / GraphNameIndex (Model.v section 14) ----------
+#[derive(Clone, Debug, PartialEq)]
+enum TiOp { Ensure(Tid), Get(Tid), Term(u64), GraphName(Option<u64>) /* None: the index MAX */, GnIndex(Option<Tid>), DefaultIdx, Len, Clone }
+const TI_KINDS: [&str; 9] = ["u16", "u32", "usize", "SmallIdx<3>", "SmallIdx<4>", "SmallIdx<5>", "SmallIdx<6>", "SmallIdx<8>", "SmallIdx<12>"];
+fn ti_max(kind: &str) -> u64 {
+    match kind { "u16" => 65535, "u32" => 4294967295, "usize" => u64::MAX, "SmallIdx<3>" => 3, "SmallIdx<4>" => 4, "SmallIdx<5>" => 5, "SmallIdx<6>" => 6, "SmallIdx<8>" => 8, "SmallIdx<12>" => 12, _ => unreachable!() }
+}
+/// the history is generated along the oracle (a list of terms in order of first use), so that get_term is only
+/// asked for valid indexes (its precondition)
+fn gen_ti(r: &mut Rng, max: u64) -> (Vec<TiOp>, Vec<Option<u64>>) {
+    let n = r.range(1, 40);
+    let t = if max <= 12 { r.range((max as usize).saturating_sub(1).max(2), max as usize + 3) } else { r.range(3, 12) };
+    let mut pal: Vec<Tid> = vec![];
+    while pal.len() < t { let x = 1 + r.below(NT as usize) as u64; if !pal.contains(&x) { pal.push(x) } }
+    let mut ts: Vec<Tid> = vec![]; // the oracle
+    let (mut ops, mut exp) = (vec![], vec![]);
+    for _ in 0..n {
+        let tid = |r: &mut Rng| if r.chance(1, 8) { 1 + r.below(NT as usize) as u64 } else { *r.pick(&pal) };
+        let pos = |ts: &Vec<Tid>, t: Tid| ts.iter().position(|x| *x == t).map(|i| i as u64);
+        let (op, e) = match r.below(20) {
+            0..=7 => { let t = tid(r); let e = match pos(&ts, t) { Some(i) => Some(i), None => if ts.len() as u64 >= max { None } else { ts.push(t); Some(ts.len() as u64 - 1) } }; (TiOp::Ensure(t), e) }
+            8..=10 => { let t = tid(r); (TiOp::Get(t), pos(&ts, t)) }
+            11 | 12 if !ts.is_empty() => { let i = r.below(ts.len()); (TiOp::Term(i as u64), Some(ts[i])) }
+            13 | 14 => if ts.is_empty() || r.chance(1, 3) { (TiOp::GraphName(None), None) } else { let i = r.below(ts.len()); (TiOp::GraphName(Some(i as u64)), Some(ts[i])) },
+            15 | 16 => if r.chance(1, 3) { (TiOp::GnIndex(None), Some(max)) } else { let t = tid(r); (TiOp::GnIndex(Some(t)), pos(&ts, t)) },
+            17 => (TiOp::DefaultIdx, Some(max)),
+            18 => (TiOp::Clone, None),
+            _ => (TiOp::Len, Some(ts.len() as u64)),
+        };
+        ops.push(op); exp.push(e);
+    }
+    (ops, exp)
+}
+fn run_ti<I: Index + Default>(c: &Ctx, ops: &[TiOp], r: &mut Rng) -> Vec<Option<u64>> {
+    let mut ti: SimpleTermIndex<I> = if r.chance(1, 2) { SimpleTermIndex::new() } else { Default::default() };
+    let idx = |i: &Option<u64>| match i { Some(i) => I::from_usize(*i as usize), None => I::MAX };
+    let mut outs = vec![];
+    for op in ops {
+        outs.push(match op {
+            TiOp::Ensure(t) => { let t = c.term(*t, r); let res = if r.chance(1, 2) { ti.ensure_index(&t) } else { ti.ensure_index(t) }; res.ok().map(|i| i.into_usize() as u64) }
+            TiOp::Get(t) => { let t = c.term(*t, r); let res = if r.chance(1, 2) { ti.get_index(&t) } else { ti.get_index(t) }; res.map(|i| i.into_usize() as u64) }
+            TiOp::Term(i) => Some(c.id(ti.get_term(idx(&Some(*i))))),
+            TiOp::GraphName(i) => ti.get_graph_name(idx(i)).map(|t| c.id(t)),
+            TiOp::GnIndex(g) => ti.get_graph_name_index(g.map(|g| c.term(g, r))).map(|i| i.into_usize() as u64),
+            TiOp::DefaultIdx => Some(ti.get_default_graph_index().into_usize() as u64),
+            TiOp::Len => if ti.is_empty() == (ti.len() == 0) { Some(ti.len() as u64) } else { Some(u64::MAX - 1) },
+            // go on with the clone; the original gets one more term, then is dropped
+            TiOp::Clone => { let mut old = std::mem::replace(&mut ti, SimpleTermIndex::new()); ti = old.clone(); let _ = old.ensure_index(iri("http://example.org/only-in-the-original")); drop(old); None }
+        });
+    }
+    outs
+}
+fn run_ti_kind(c: &Ctx, kind: &str, ops: &[TiOp], r: &mut Rng) -> Vec<Option<u64>> {
+    match kind {
+        "u16" => run_ti::<u16>(c, ops, r), "u32" => run_ti::<u32>(c, ops, r), "usize" => run_ti::<usize>(c, ops, r),
+        "SmallIdx<3>" => run_ti::<SmallIdx<3>>(c, ops, r), "SmallIdx<4>" => run_ti::<SmallIdx<4>>(c, ops, r), "SmallIdx<5>" => run_ti::<SmallIdx<5>>(c, ops, r),
+        "SmallIdx<6>" => run_ti::<SmallIdx<6>>(c, ops, r), "SmallIdx<8>" => run_ti::<SmallIdx<8>>(c, ops, r), "SmallIdx<12>" => run_ti::<SmallIdx<12>>(c, ops, r),
+        _ => unreachable!(),
+    }
+}
+fn c_tiop(o: &TiOp, max: u64) -> String {
+    match o {
+        TiOp::Ensure(t) => format!("TiEnsure {t}"), TiOp::Get(t) => format!("TiGet {t}"), TiOp::Term(i) => format!("TiTerm {i}"),
+        TiOp::GraphName(i) => format!("TiGraphName {}", i.unwrap_or(max)), TiOp::GnIndex(g) => format!("TiGnIndex {}", c_g(g)),
+        TiOp::DefaultIdx => "TiDefault".into(), TiOp::Len => "TiLen".into(), TiOp::Clone => "TiClone".into(),
     }
 }
 
@@ -884,16 +1238,54 @@ fn main() {
     let capped: Vec<usize> = (0..all.len()).filter(|i| all[*i].small_m.is_some()).collect();
     let uncapped: Vec<usize> = (0..all.len()).filter(|i| all[*i].small_m.is_none()).collect();
     let mut sum = Summary::default();
-    sum.rule = "case = (store type, history of 1..60 mixed ops: insert/remove/contains/query/all/remove_matching/retain_matching/insert_all/remove_all/term enumerations, \
-with real sophia matchers of every shipped kind, described to Coq by constant()/extension over the 16-class pool) run on the real store from empty; every 10th case is a directed \
-term-index-boundary history on a capacity-limited store; non-trivial = at least one mutation that changed the store AND at least one non-empty query result; \
-distinct = distinct printed case text (store, ops with matcher labels)".into();
+    sum.rule = "case = (store type, history of 1..60 mixed ops (then all quads and, every other time, the term count): insert/remove/contains/query/all/remove_matching/retain_matching/insert_all/remove_all/term enumerations, \
+clone, from_quad_source/from_triple_source/collect_quads/collect_triples (also from failing sources), insert_all/remove_all from failing sources, length of the term index, \
+with real sophia matchers of every shipped kind, described to Coq by constant()/extension over the 16-class pool) run on the real store from empty (new() or default()), each op \
+reaching the store directly, through &D / &mut D or (vectors) through the slice; every 10th case is a directed \
+term-index-boundary history on a capacity-limited store; every 20th case is a history of a SimpleTermIndex used directly (ensure_index/get_index/get_term/get_graph_name/\
+get_graph_name_index/len/clone); non-trivial = at least one mutation that changed the store AND at least one non-empty query result (term-index cases: an index was assigned AND \
+a lookup succeeded); distinct = distinct printed case text (store, ops with matcher labels)".into();
     let mut cases: Vec<(usize, String)> = vec![];
     let mut seen = HashSet::new();
     let base = Rng::new(a.seed);
     let range: Vec<usize> = match a.only { Some(i) => vec![i], None => (0..a.n).collect() };
     for idx in range {
         let mut r = base.fork(idx as u64);
+        if idx % 20 == 3 {
+            // SimpleTermIndex on its own
+            sum.bump("kind:term-index");
+            let kind = *r.pick(&TI_KINDS);
+            let max = ti_max(kind);
+            let (tops, exp) = gen_ti(&mut r, max);
+            let text = format!("SimpleTermIndex<{kind}> ops={tops:?}");
+            let outs = match std::panic::catch_unwind(std::panic::AssertUnwindSafe(|| run_ti_kind(&ctx, kind, &tops, &mut r))) {
+                Ok(o) => o,
+                Err(_) => {
+                    let msg = LAST_PANIC.with(|l| l.borrow().clone());
+                    sum.oracle_failures.push((idx.to_string(), format!("SimpleTermIndex<{kind}> PANICKED ({}); full case: {text}", msg.chars().take(300).collect::<String>())));
+                    sum.bump("implementation-panic"); sum.evaluations += 1; continue;
+                }
+            };
+            let c_o = |l: &[Option<u64>]| coq_list(l.iter().map(|x| match x { Some(x) => format!("Some {x}"), None => "None".into() }));
+            let coq = format!("ti_case_ok {max} {} {}", coq_list(tops.iter().map(|o| c_tiop(o, max))), c_o(&outs));
+            if a.only.is_some() { println!("CASE {idx}: {text}\nIMPL   {outs:?}\nORACLE {exp:?}\nCOQ    {coq}"); }
+            if outs != exp {
+                let k = outs.iter().zip(exp.iter()).position(|(x, y)| x != y).unwrap_or(0);
+                sum.oracle_failures.push((idx.to_string(), format!("SimpleTermIndex<{kind}> op#{k} {:?}: implementation returned {:?}, the oracle gives {:?}; full case: {text}", tops.get(k), outs.get(k), exp.get(k))));
+            }
+            let assigned = tops.iter().zip(outs.iter()).any(|(o, x)| matches!(o, TiOp::Ensure(_)) && x.is_some());
+            let found = tops.iter().zip(outs.iter()).any(|(o, x)| matches!(o, TiOp::Get(_) | TiOp::Term(_) | TiOp::GraphName(Some(_))) && x.is_some());
+            if seen.insert(text.clone()) && assigned && found { sum.distinct_nontrivial += 1; }
+            sum.bump(&format!("term-index:{kind}"));
+            for (o, x) in tops.iter().zip(outs.iter()) {
+                sum.bump(&format!("ti-op:{}", match o { TiOp::Ensure(_) => "ensure_index", TiOp::Get(_) => "get_index", TiOp::Term(_) => "get_term", TiOp::GraphName(_) => "get_graph_name",
+                    TiOp::GnIndex(_) => "get_graph_name_index", TiOp::DefaultIdx => "get_default_graph_index", TiOp::Len => "len", TiOp::Clone => "clone" }));
+                if matches!(o, TiOp::Ensure(_)) && x.is_none() { sum.bump("ti-out:TermIndexFull") }
+            }
+            cases.push((idx, coq));
+            sum.evaluations += 1;
+            continue;
+        }
         let (st, ops) = if idx % 10 == 7 {
             sum.bump("kind:directed-boundary");
             gen_directed(&ctx, &mut r, idx, &all)
@@ -903,7 +1295,12 @@ distinct = distinct printed case text (store, ops with matcher labels)".into();
             let nops = r.range(1, 60);
             let pal = palette(&mut r, &st);
             let mut inserted = vec![];
-            let ops: Vec<Op> = (0..nops).map(|_| gen_op(&ctx, &mut r, &pal, &mut inserted, st.isgraph)).collect();
+            // one history in four starts with the bulk constructor (its usual place)
+            let mut ops: Vec<Op> = if r.chance(1, 4) { vec![gen_collect(&mut r, &pal, &mut inserted, st.isgraph)] } else { vec![] };
+            ops.extend((0..nops).map(|_| gen_op(&ctx, &mut r, &pal, &mut inserted, st.isgraph)));
+            // the final state is always observed: the whole content, and (every other history) the size of the term index
+            ops.push(Op::All);
+            if r.chance(1, 2) { ops.push(Op::TermCount) }
             (st, ops)
         };
         let text = format!("{} ops=[{}]", st.name, ops.iter().map(|o| op_text(o, st.isgraph)).collect::<Vec<_>>().join("; "));
@@ -917,7 +1314,8 @@ distinct = distinct printed case text (store, ops with matcher labels)".into();
             }
         };
         let exp = run_oracle(&st, &ops);
-        let coq = format!("case_ok the_pool {} {} {} {}", st.config, st.max, coq_list(ops.iter().map(|o| c_op(o, st.isgraph))), coq_list(outs.iter().map(c_out)));
+        let coq = if ops.iter().all(Op::is_base) { format!("case_ok the_pool {} {} {} {}", st.config, st.max, coq_list(ops.iter().map(|o| c_op(o, st.isgraph))), coq_list(outs.iter().map(c_out))) }
+            else { format!("xcase_ok the_pool {} {} {} {}", st.config, st.max, coq_list(ops.iter().map(|o| c_xop(o, st.isgraph))), coq_list(outs.iter().map(c_out))) };
         if a.only.is_some() { println!("CASE {idx}: {text}\nIMPL   {outs:?}\nORACLE {exp:?}\nCOQ    {coq}"); }
         if outs != exp {
             let k = outs.iter().zip(exp.iter()).position(|(x, y)| x != y).unwrap_or(0);
@@ -927,16 +1325,19 @@ distinct = distinct printed case text (store, ops with matcher labels)".into();
         let changed = ops.iter().zip(outs.iter()).any(|(o, x)| match (o, x) {
             (Op::Insert(_) | Op::Remove(_), Out::Flag(true)) => true,
             (Op::RemoveMatching(_) | Op::InsertAll(_) | Op::RemoveAll(_), Out::Count(n)) => *n > 0,
+            (Op::Collect { l, .. }, Out::Flag(true)) => !l.is_empty(),
             _ => false,
         });
         let nonempty = outs.iter().any(|x| matches!(x, Out::Quads(l) if !l.is_empty()));
         if seen.insert(text.clone()) && changed && nonempty { sum.distinct_nontrivial += 1; }
         sum.bump(&format!("store:{}", st.name));
-        sum.bump(&format!("config:{} {}", st.config, if st.small_m.is_some() { "M" } else if st.max == 0 { "-" } else if st.max == 65535 { "u16" } else { "u32" }));
+        sum.bump(&format!("config:{} {}", st.config, if st.small_m.is_some() { "M" } else if st.max == 0 { "-" } else if st.max == 65535 { "u16" } else if st.max == u64::MAX { "usize" } else { "u32" }));
         if st.small_m.is_some() { sum.bump(if outs.contains(&Out::Err) { "capped:overflowed" } else { "capped:no-overflow" }); }
         for (o, x) in ops.iter().zip(outs.iter()) {
             sum.bump(&format!("op:{}", op_name(o)));
             if *x == Out::Err { sum.bump("out:TermIndexFull") }
+            if let (Op::Collect { .. }, Out::Err) = (o, x) { sum.bump("collect:TermIndexFull") }
+            if let (Op::TermCount, Out::Count(_)) = (o, x) { sum.bump("term-count:observed") }
             if let Op::Query(m) | Op::RemoveMatching(m) | Op::RetainMatching(m) = o {
                 let bit = |d: &MD| matches!(d, MD::Const(_)) as usize;
                 let shape = 8 * (matches!(m.g.d, GD::Const(_)) as usize) + 4 * bit(&m.s.d) + 2 * bit(&m.p.d) + bit(&m.o.d);
